@@ -56,6 +56,7 @@ def run(chk, repo, tier):
     chk.clause('C19-d', 'unit gain at zero frequency and identity at zero extent (DC-vanishing argument, extent factor)', 5)
     chk.clause('C19-e', 'Gaussian constant exp(-2*pi^2*sigma^2*rho^2); extents enter as (extent/pixelscale)*oversample', 3)
     chk.clause('C19-f', 'jitter/smear rescale so that the total equals the input total', 2)
+    chk.clause('C19-h', 'pixelate = pixel blur followed by flux-preserving rescale by 1/oversample', 1)
     chk.clause('C19-s', 'no blur mixes two different axes of the image (shape inference over detector/convolvable)', 3)
     chk.not_decided += ['equality with the exact circular convolution', 'treatment of the unpaired Nyquist sample']
 
@@ -73,6 +74,8 @@ def run(chk, repo, tier):
            fs.loc())
     a_ok = bool(det_) and all(any(is_app(a, 'deg2rad') and a[2][0] == S('angle') for a in nf.value_atoms(p.ret)) for p in det_)
     chk.ob('C19-g', 'D-flow', fs.key, 'a given angle (degrees) is what the kernel is rotated by', a_ok, '', fs.loc())
+    from .extra_rules import pixelate_rule
+    pixelate_rule(chk, repo, 'C19-h')
     from ..effects import doc_param_kinds
     ish = declare_2d('img')[('sym', 'img')]
     for key in BLURS:
